@@ -62,6 +62,22 @@ OneBond(mrules, erules, b) ==
 OneCompound(erules, b) ==
     LET e == FirstExpand(erules, b) IN IF e = 0 THEN "" ELSE erules[e].smiles
 
+(* _merge_one_compound with SEVERAL boundaries (merge.py:36-54): the loop takes the first open boundary, expands *)
+(* and merges it or - without an expand rule - drops it, until none is left. LoopMode "all" is the code;          *)
+(* "stop_at_no_rule" is the wrong reading in which the first boundary without an expand rule ends the loop.       *)
+RECURSIVE ManyRules(_, _, _, _, _)
+ManyRules(mrules, erules, bs, k, mode) ==
+    IF k > Len(bs) THEN <<>>
+    ELSE IF mode = "stop_at_no_rule" /\ FirstExpand(erules, bs[k]) = 0 THEN <<>>
+    ELSE OneRules(mrules, erules, bs[k]) \o ManyRules(mrules, erules, bs, k + 1, mode)
+\* boundaries still open when the loop ends
+RECURSIVE ManyOpen(_, _, _, _)
+ManyOpen(erules, bs, k, mode) ==
+    IF k > Len(bs) THEN 0
+    ELSE IF mode = "stop_at_no_rule" /\ FirstExpand(erules, bs[k]) = 0 THEN Len(bs) - k + 1
+    ELSE ManyOpen(erules, bs, k + 1, mode)
+BagOfSeq(seq) == [x \in {seq[j] : j \in 1..Len(seq)} |-> Cardinality({j \in 1..Len(seq) : seq[j] = x})]
+
 (* bookkeeping the property asks for *)
 V(d, k) == IF k \in DOMAIN d THEN d[k] ELSE 0
 AddCounts(a, b) == [k \in DOMAIN a \cup DOMAIN b |-> V(a, k) + V(b, k)]
